@@ -219,6 +219,8 @@ func (h *handle) verifyMethod(mi int, prop string) bool {
 		oracle := "record-count"
 		if prop == "C08" {
 			oracle = "reset-clears-exactly"
+			// "one record per call since M was last reset" (C04) is violated as well
+			h.bad("C04", "record-count-after-reset", "%sCalls() has %d records after a reset, the model has %d", name, recs.Len(), len(want))
 		}
 		h.bad(prop, oracle, "%sCalls() has %d records, the model has %d", name, recs.Len(), len(want))
 		return false
